@@ -18,7 +18,7 @@ func init() {
 		ID:    "C02",
 		Title: "Reconciliation converges to exactly the desired pods and then goes quiet",
 		Run:   runC02,
-		Explanation: "Convergence is a liveness claim over histories and schedules and is NOT decided. Decided necessary conditions (clauses C02.1-C02.5 of DESIGN.md): (1) quiescence is possible: from the entry of sync there is a CFG path to a successful return on which no API write and no event is issued, following calls into in-repo callees (a callee is write-avoidable iff it has such a path itself); and every function with an effect site is write-avoidable, i.e. no write post-dominates a reconcile on its success path; " +
+		Explanation: "Convergence is a liveness claim over histories and schedules and is (6) the update walk reaches down to the partition, (7) with a strategy other than OnDelete no return is reachable between scaling and the update walk, (8) the gate of the revision-adoption work (uncached read, revision writes) is raised only where a listed revision was seen without a controller. NOT decided. Decided necessary conditions (clauses C02.1-C02.5 of DESIGN.md): (1) quiescence is possible: from the entry of sync there is a CFG path to a successful return on which no API write and no event is issued, following calls into in-repo callees (a callee is write-avoidable iff it has such a path itself); and every function with an effect site is write-avoidable, i.e. no write post-dominates a reconcile on its success path; " +
 			"(2) the status write is skipped when nothing changed (C12.4) and revision writes are conditional (C08.3); (3) the reconcile is stateless (no store to long-lived controller state, shared with C09.3); (4) failed reconciles are re-queued with backoff and successful ones forgotten (worker wiring, shared with C09.2); " +
 			"(5) predicate/repair agreement: every pod field read by the identity and storage predicates that trigger a pod update is written by the repair functions applied under them, so a pod that the repair cannot fix is never re-written on every reconcile. NOT decided: that the fixed point is reached from every state under the fairness premise.",
 	})
